@@ -5,7 +5,7 @@ import time
 
 from . import common, kani_runner, gen_cmp
 from .common import log
-from .gen_cmp import Field, TypeSpec, Variant
+from .gen_cmp import Field, TypeSpec, Variant, entry_attrs, place, candidate_desc, pos_class, accepted, sig_of
 
 PID = "C01"
 ORD_TRAITS = ["Ord", "PartialOrd", "Eq", "PartialEq"]
@@ -22,13 +22,6 @@ use derive_ex::{{derive_ex, Ex}};
 
 def effective(t, trait):
     return any((not gen_cmp.ignored(f, trait)) and "PhantomData" not in f.ty for _, f in t.all_fields())
-
-
-def entry_attrs(entry, traits):
-    lst = ", ".join(traits)
-    if entry == "attr":
-        return ["#[derive_ex(%s)]" % lst]
-    return ["#[derive(Ex)]", "#[derive_ex(%s)]" % lst]
 
 
 def build_program(name, t, traits, entry, desc, sig, pid=PID):
@@ -69,35 +62,6 @@ def build_program(name, t, traits, entry, desc, sig, pid=PID):
     src += "#[cfg(kani)]\n#[kani::proof]\npub fn h() {\n    check(&mut KaniSrc)\n}\n"
     nontrivial = sum(len(v.fields) for v in t.variants) >= 2 or any(f.attrs for _, f in t.all_fields())
     return kani_runner.Program(name, src, sig, desc, nontrivial)
-
-
-def place(shape_name, placements, traits=None):
-    """placements: list of (field index over all fields, attr, args tuple). Returns TypeSpec or None"""
-    t = gen_cmp.shapes()[shape_name]()
-    fields = [f for _, f in t.all_fields()]
-    if t.generics and traits is not None and not gen_cmp.supertrait_closed(traits):
-        return None  # hand-written supertrait impls are only written for concrete types
-    for idx, attr, args in placements:
-        if idx >= len(fields):
-            return None
-        f = fields[idx]
-        if "PhantomData" in f.ty:
-            return None
-        if "by" in args and any(g == f.ty for g, _ in t.generics):
-            return None  # `by` on a field of generic type: rustc rejects the nested fn (property C20, not claimed)
-        f.attrs.setdefault(attr, set()).update(args)
-    return t
-
-
-def candidate_desc(shape, placements, traits, entry):
-    pl = ";".join("%s(%s)@%d" % (a, "+".join(args), i) for i, a, args in placements) or "-"
-    return "shape=%s attrs=%s traits=%s entry=%s" % (shape, pl, "+".join(traits), entry)
-
-
-def pos_class(shape, idx):
-    t = gen_cmp.shapes()[shape]()
-    n = len(list(t.all_fields()))
-    return "first" if idx == 0 else ("last" if idx == n - 1 else "middle")
 
 
 def all_candidates():
@@ -176,42 +140,6 @@ def core_candidates():
         if a in ("partial_ord", "partial_eq"):
             out.append(("s_po", [(0, a, o)], ["PartialOrd", "PartialEq"], "attr"))
     return out
-
-
-def accepted(cands):
-    """ask the real macro (R) which candidates it accepts; -> list of (cand, TypeSpec)"""
-    reqs, specs = [], []
-    for (sh, pl, ts, en) in cands:
-        t = place(sh, pl, ts)
-        if t is None:
-            continue
-        if en == "attr":
-            reqs.append(("attr", ", ".join(ts), t.item_text()))
-        else:
-            reqs.append(("derive", "", t.item_text(["#[derive_ex(%s)]" % ", ".join(ts)])))
-        specs.append(((sh, pl, ts, en), t))
-    res = common.expand_many(reqs)
-    out, rejected, leftover = [], 0, 0
-    for (cand, t), r in zip(specs, res):
-        if "panic" in r or not r.get("parse_ok"):
-            rejected += 1
-            continue
-        if common.compile_errors(r):
-            rejected += 1
-            continue
-        if cand[3] == "attr":
-            item0 = r["items"][0]["text"] if r["items"] else ""
-            if any(("# [%s" % a) in item0 or ("#[%s" % a) in item0 for a in gen_cmp.CMP_ATTRS):
-                leftover += 1  # helper attribute not consumed: rustc would reject the program ("cannot find attribute")
-                continue
-        out.append((cand, t))
-    return out, rejected, leftover
-
-
-def sig_of(cand):
-    sh, pl, ts, en = cand
-    p = ";".join("%s(%s)@%s" % (a, "+".join(args), pos_class(sh, i)) for i, a, args in pl) or "-"
-    return "%s|%s|%s|%s" % (sh, p, "+".join(ts), en)
 
 
 def run(tier):
